@@ -48,7 +48,7 @@ ASSUME ~VParse(S2C("vers:Npm/>=1.0.0")).syntaxOk /\ ~VParse(S2C("vers:npm/1.0.0"
 ASSUME ~VParse(S2C("vers:npm/*|>=1.0.0")).syntaxOk /\ ~VParse(S2C("ver:npm/>=1")).syntaxOk /\ ~VParse(S2C("vers:npm")).syntaxOk
 ASSUME ~VParse(S2C("vers:/>=1")).syntaxOk /\ ~VParse(S2C("vers:npm/")).syntaxOk /\ ~VParse(S2C("vers:npm/|")).syntaxOk
 ASSUME VParse(S2C("vers:npm/*")).loneStar /\ VParse(S2C("vers:npm/!=1.0.0")).cons[1].op = "!="
-\* pypi pre-/dev-release probes of C17: PEP 440's default keeps them out of ranges that name no pre-release,
-\* so only the error/no-error outcome is judged for them (containment of such probes belongs to C04)
+\* pypi pre-/dev-release probes of C17 (PEP 440's default keeps them out of ranges that name no pre-release; the
+\* judge VersWfC17 models that default with Pep440!PIsPre)
 PypiPreProbes == {"1.5rc1", "3.0.dev1", "1.1c2"}
 =============================================================================
